@@ -6,6 +6,7 @@ mod graphs;
 mod gen;
 mod progrun;
 mod streams;
+mod proggen;
 
 use std::io::Write;
 
@@ -39,6 +40,7 @@ fn main() {
         }
         "graph-random" => graphs::random(&mut rng, count, &mut emit),
         "expr" => streams::expr(&mut rng, count, &mut emit),
+        "prog" => streams::prog(&mut rng, count, extra.get(0).map(|s| s.as_str()).unwrap_or("dag"), &mut emit),
         _ => { eprintln!("unknown stream {}", stream); std::process::exit(2); }
     }
 }
